@@ -93,11 +93,16 @@ Definition check_seq (c : seq_case) : N := let '(ops, os) := c in seq_walk empty
            observation.
    mode 1: node deletions race with other operations: only the oracle is evaluated; a failure is
            in known class 0 `concurrent-delete-node` when one thread deleted a node that another
-           thread used as an endpoint of an edge creation (C05_delete_node_race_refuted). *)
+           thread used as an endpoint of an edge creation, or whose incident edges another thread may have
+           updated/deleted meanwhile (C05_delete_node_race_refuted). *)
+(* operations of another thread that can race with delete_node n: an edge creation naming n, or an
+   edge update/deletion (the edge may be incident to n; update_edge re-puts a record it read) *)
 Definition names_endpoint (n : N) (o : op) : bool :=
   match o with
   | CreateEdge f t _ => N.eqb f n || N.eqb t n
   | CreateEdgeId _ f t _ => N.eqb f n || N.eqb t n
+  | UpdateEdge _ => true
+  | DeleteEdge _ => true
   | _ => false
   end.
 Definition deleted_nodes (t : list (op * res)) : list N :=
